@@ -45,10 +45,41 @@ def lsn (j : Json) : Except String Json := do
   .ok (J.ofList (fun (e : GenEntry) =>
     Json.arr #[J.ofNat e.1, J.ofNat e.2.1, J.ofNat e.2.2.1, J.ofNat e.2.2.2.1, J.ofRat e.2.2.2.2]) l)
 
+def ofEntries (l : List GenEntry) : Json :=
+  J.ofList (fun (e : GenEntry) =>
+    Json.arr #[J.ofNat e.1, J.ofNat e.2.1, J.ofNat e.2.2.1, J.ofNat e.2.2.2.1, J.ofRat e.2.2.2.2]) l
+
+def parseVec (j : Json) : Except String (Nat → Rat) := do
+  let v ← J.listOf J.rat j
+  .ok fun i => v.getD i 0
+
+/-- `c15.step`: generator list of one step of a step class -/
+def stepH (j : Json) : Except String Json := do
+  let kind ← J.str (← J.field j "kind")
+  let n ← J.nat (← J.field j "n")
+  let zeroM : Json := Json.arr #[]
+  let tre ← parseMat (J.fieldD j "Tre" zeroM)
+  let tim ← parseMat (J.fieldD j "Tim" zeroM)
+  let v ← parseMat (J.fieldD j "V" zeroM)
+  let e ← parseVec (J.fieldD j "E" zeroM)
+  let const ← J.rat (J.fieldD j "const" (J.ofNat 0))
+  match kind with
+  | "lsn-asym" => .ok (ofEntries (lsnAsymStep n tre tim v))
+  | "lsn-sym" => .ok (ofEntries (lsnSymStep n tre tim v))
+  | "lsn-asym-controlled" => .ok (ofEntries (lsnAsymStepControlled n tre tim v const))
+  | "lsn-sym-controlled" => .ok (ofEntries (lsnSymStepControlled n tre tim v const))
+  | "so-asym" => .ok (ofEntries (soAsymStep n v e))
+  | "so-sym" => .ok (ofEntries (soSymStep n v e))
+  | "lr" => do
+    let cs ← J.listOf parseMat (← J.field j "cs")
+    .ok (J.obj [("entries", ofEntries (lrStep n e cs)), ("reverses", Json.bool (lrReverses cs))])
+  | s => .error s!"unknown step kind {s}"
+
 def handle (op : String) (j : Json) : Option (Except String Json) :=
   match op with
   | "c15.simulate" => some (simulateH j)
   | "c15.lsn" => some (lsn j)
+  | "c15.step" => some (stepH j)
   | _ => none
 
 end C15
